@@ -135,7 +135,15 @@ void run_case(ByteSource& s, CaseInfo& ci) {
       std::vector<double> a = gen_dense(s, d), b = gen_dense(s, d);
       ci.label("unitary-matrix"); ci.nontrivial = maxabs(U - Mat::identity(d)) > 1e-3;
       ci.sample = fmt("Rotate(U)/UTransform(U)/UDaggerTransform(U) d=%d U=%s A=%s", d, mat_str(U).c_str(), vec_str(a).c_str());
-      GslMat g(U);
+      // the unitary is handed over either as an owning contiguous matrix or as a view into a larger matrix (row stride > d)
+      bool view = s.flag();
+      GslMat big(d + 1 + (int)s.choose(3), d + 1 + (int)s.choose(3));
+      int r0 = (int)s.choose((unsigned)(big.m->size1 - d + 1)), c0 = (int)s.choose((unsigned)(big.m->size2 - d + 1));
+      for (size_t i = 0; i < big.m->size1; i++) for (size_t j = 0; j < big.m->size2; j++) gsl_matrix_complex_set(big.m, i, j, gsl_complex_rect(7.0 + i, -3.0 - j));
+      gsl_matrix_complex_view sub = gsl_matrix_complex_submatrix(big.m, r0, c0, d, d);
+      GslMat own(U);
+      if (view) { for (int i = 0; i < d; i++) for (int j = 0; j < d; j++) gsl_matrix_complex_set(&sub.matrix, i, j, gsl_matrix_complex_get(own.m, i, j)); ci.label("unitary-as-submatrix-view"); }
+      struct { gsl_matrix_complex* m; } g{view ? &sub.matrix : own.m};
       SU_vector A = make_vec(a, d), B = make_vec(b, d);
       Mat MA = toM(a, d);
       ld tol = 128 * d * d * EPS * amax_of(a);
@@ -147,6 +155,11 @@ void run_case(ByteSource& s, CaseInfo& ci) {
       CHECK(comps(A) == a, "C06|matrix-transform|operand-modified", "d=%d", d);
       Mat U2 = fromGsl(g.m);
       CHECK(maxabs(U2 - U) == 0, "C06|matrix-transform|matrix-argument-modified", "d=%d", d);
+      if (view) for (size_t i = 0; i < big.m->size1; i++) for (size_t j = 0; j < big.m->size2; j++) {
+        if ((int)i >= r0 && (int)i < r0 + d && (int)j >= c0 && (int)j < c0 + d) continue;
+        gsl_complex z = gsl_matrix_complex_get(big.m, i, j);
+        CHECK(GSL_REAL(z) == 7.0 + i && GSL_IMAG(z) == -3.0 - j, "C06|matrix-transform|wrote-outside-the-matrix-view", "element (%zu,%zu) of the enclosing matrix changed", i, j);
+      }
       SU_vector rb = B.UTransform(g.m);
       double p0 = A * B, p1 = r2 * rb;
       CHECK(fabsl((ld)p0 - (ld)p1) <= 1024 * d * d * d * EPS * amax_of(a) * amax_of(b) * d + TINY, fmt("C06|UTransform(U)|scalar-product|d=%d", d), "%.17g vs %.17g", p0, p1);
@@ -161,6 +174,18 @@ void run_case(ByteSource& s, CaseInfo& ci) {
       ci.sample = fmt("WeightedRotation d=%d Yd=%s A=%s", d, vec_str(y).c_str(), vec_str(a).c_str());
       SU_vector A1 = make_vec(a, d), A2 = make_vec(a, d), Y = make_vec(y, d);
       auto V = pv.GetTransformationMatrix(d), W = pw.GetTransformationMatrix(d);
+      bool self_weight = s.choose(4) == 0;  // the weight operator may be the very vector being transformed
+      if (self_weight) {
+        SU_vector B1 = make_vec(a, d), B2 = make_vec(a, d), Yc = make_vec(a, d);
+        B1.WeightedRotation(pv, B1, pw);        // aliased weight
+        B2.WeightedRotation(pv, Yc, pw);        // equal but distinct weight
+        ld ys2 = 0; for (double x : a) ys2 += (ld)x * x;
+        ld t2 = 512 * d * d * EPS * amax_of(a) * (ys2 * d + TINY) * d * (d - 1);
+        for (int i = 0; i < d * d; i++) CHECK(fabsl((ld)B1[i] - (ld)B2[i]) <= t2 + TINY, fmt("C06|WeightedRotation|wrong-when-weight-is-the-vector-itself|d=%d", d), "slot %d %.17g vs %.17g", i, B1[i], B2[i]);
+        SU_vector B3 = make_vec(a, d); B3.WeightedRotation(V.get(), B3, W.get());
+        for (int i = 0; i < d * d; i++) CHECK(fabsl((ld)B3[i] - (ld)B2[i]) <= t2 + TINY, fmt("C06|WeightedRotation-matrix|wrong-when-weight-is-the-vector-itself|d=%d", d), "slot %d %.17g vs %.17g", i, B3[i], B2[i]);
+        ci.label("weighted-self");
+      }
       A1.WeightedRotation(pv, Y, pw);
       A2.WeightedRotation(V.get(), Y, W.get());
       ld ys = 0; for (double x : y) ys += (ld)x * x;
